@@ -126,8 +126,19 @@ class SymExp(SymExpBase):
             return v
         s = d.scale()
         one = Sym.const(1)
-        return {'<': s < one, '<=': s <= one, '>': s > one, '>=': s >= one,
-                '==': s == one, '!=': s != one}[op]
+        r = {'<': s < one, '<=': s <= one, '>': s > one, '>=': s >= one,
+             '==': s == one, '!=': s != one}[op]
+        if op in ('<', '<=', '>', '>='):
+            # decide now and remember a margin version of the decision: the scale
+            # variables over-approximate powers of two by a factor < 2, so a
+            # counterexample is only replayable if exponent comparisons hold with
+            # slack (used when a model is extracted, never for verdicts)
+            res = bool(r)
+            up = (op in ('>', '>=')) == res
+            from .formula import _lift
+            self.ctx.robust.append(_lift(s > 16 if up else s < Sym.const(1) / 16))
+            return res
+        return r
 
     def __lt__(self, o):
         return self._cmp(o, '<')
